@@ -27,13 +27,17 @@ def cfg_for(states, defaults, nodelay=False, peer3_realm=None):
         if st == "waiting_dwa":
             pc["idle_timeout"] = 2
         peers.append(pc)
+    extra_apps = []
+    if peer3_realm is not None:
+        # peers from two realms *and* an additional realm in one add_application call
+        extra_apps = [{"id": 7, "auth": True, "peers": [0, 2], "realms": [REALM3]}]
     return {"node": {"ips": [], "tcp_port": None, "cer_timeout": 600, "cea_timeout": 600, "idle_timeout": 600, "dwa_timeout": 600, "wakeup": 1},
-            "peers": peers,
+            "peers": peers, "_extra_apps": extra_apps,
             "apps": [{"id": 3, "acct": True, "peers": [0, 1, 2]},       # A0: all three peers, own realm
                      {"id": 4, "auth": True, "peers": [2], "realms": [REALM2, REALM3]},   # A1: peer 3, own realm + two additional realms
                      {"id": 5, "auth": True, "peers": []},              # A2: no peers of its own: default peers only
                      {"id": 3, "acct": True, "peers": [0]},             # A3: a second instance of A0's application id, peer 1 only
-                     {"id": 6, "auth": True, "peers": [0], "realms": [REALM2]}]}  # A4: peer 1, own realm + the first additional realm only
+                     {"id": 6, "auth": True, "peers": [0], "realms": [REALM2]}] + extra_apps}  # A4: peer 1, own realm + the first additional realm only
 
 
 def eligible(cfg, app_i, realm):
@@ -160,6 +164,13 @@ CFG_B3 = {
 }
 
 
+CFG_B4 = {
+    "node": {"ips": ["10.0.0.1"], "tcp_port": 3868, "idle_timeout": 600, "dwa_timeout": 600, "wakeup": 1},
+    "peers": [{"name": "peer1.example.org", "default": True}, {"name": "peer2.example.org"}],
+    "apps": [{"id": 3, "acct": True, "peers": []}, {"id": 4, "auth": True, "peers": [1]}],     # application 0 has no peers of its own: default peer only
+}
+
+
 def _set_points():
     import diameter.node.node as nn
     import diameter.node.application as aa
@@ -178,7 +189,7 @@ def execute_b(variant, prefix):
     # same_start: both connections' hop-by-hop generators start at the same value (equal ids in flight on different connections)
     rand_plan = None
     split = "split" in script
-    sc = scenario.Scenario(CFG_B3 if "twin" in script else (CFG_B2 if split else CFG_B), chooser=ch, max_socks=2, app_timeout=2,
+    sc = scenario.Scenario(CFG_B4 if "dflt" in script else (CFG_B3 if "twin" in script else (CFG_B2 if split else CFG_B)), chooser=ch, max_socks=2, app_timeout=2,
                            rand_plan=[0x10, 0x20, 0x5000, 0x5000] if same_start else None)
     try:
         nw = sc.start()
@@ -328,6 +339,8 @@ def variants_b(tier):
         out.append((((0, 1), "rev-dup-split", True), 2))
     out.append((((0, 1), "rev-dup-twin", False), 1 if tier != "thorough" else 2))    # two instances of one application id, one connection each
     out.append((((1, 1), "fwd-late-twin", False), 1 if tier != "thorough" else 2))
+    out.append((((0, 0), "rev-dup-dflt", False), 0 if tier != "thorough" else 1))     # requests routed through the realm's default peer
+    out.append((((0,), "fwd-late-dflt", False), 0 if tier != "thorough" else 1))
     if tier == "thorough":
         out.append((((0, 0, 1), "rev-late", False), 1))
         out.append((((0, 0, 0), "fwd-dup", True), 1))
@@ -349,9 +362,12 @@ def dynamic_models(tier):
     mons = [monitors.RequestTargetMonitor, monitors.AnswerMonitor]
     pre = [("accept",), ("m", 0, "cer_p0"), ("accept",), ("m", 1, "cer_p1"), ("accept",), ("m", 2, "cer_p2")]
     out = [monitors.ScenarioModel("three-ready-peers-changing-state", cfg, alpha, mons, max_socks=4, prelude=pre, app_timeout=1)]
-    import copy
-    cb = copy.deepcopy(cfg)
-    cb["node"]["select"] = "last"
+    # all three connections have a watchdog request outstanding: DPR / DWA / loss in every order, then sends
+    alpha2 = [("send", 0, "own"), ("send", 1, "own")]
+    for c in (0, 1, 2):
+        alpha2 += [("m", c, "dpr"), ("m", c, "dwa"), ("eof", c)]
+    out.append(monitors.ScenarioModel("three-peers-awaiting-their-DWA", dict(cfg, node=dict(cfg["node"], dwa_timeout=30)), alpha2, mons, max_socks=3,
+                                      prelude=pre + [("tick", 3)], app_timeout=1))
     return out
 
 
